@@ -777,16 +777,75 @@ func (it *strIter) next(i *interpreter) tuple {
 			it.pos++
 			return tuple{true, p, int32(c)}
 		}
-		if t, ok := b.(*smt.Term); ok {
-			// restrict symbolic bytes that are ranged over as runes to ASCII (recorded as a bound)
-			i.boundAssume(i.ctx.BVCmp(smt.OpULt, t, i.ctx.BVC(0x80, 8)), "symbolic string bytes decoded as runes are ASCII")
-			it.pos++
-			return tuple{true, p, i.ctx.ZExt(t, 32)}
-		}
-		// concrete multi-byte lead inside a partly symbolic string
-		panic(i.unsupported("range over partly symbolic non-ASCII string"))
+		// general case: UTF-8 decoding over (partly) symbolic bytes, exactly as utf8.DecodeRuneInString does it
+		// (first byte classes and accept ranges of the Unicode standard, table 3-7); each class is one fork
+		r, w := i.decodeRuneSym(s.b[it.pos:])
+		it.pos += w
+		return tuple{true, p, r}
 	}
 	panic("strIter")
+}
+
+// decodeRuneSym decodes the first rune of a byte sequence whose bytes may be symbolic. Forks once per UTF-8
+// sequence class; returns the rune (concrete int32 or a 32-bit term) and its width.
+func (i *interpreter) decodeRuneSym(bs []value) (value, int) {
+	c := i.ctx
+	bt := func(k int) *smt.Term {
+		switch x := bs[k].(type) {
+		case *smt.Term:
+			return x
+		case uint8:
+			return c.BVC(uint64(x), 8)
+		}
+		panic(i.unsupported("decodeRuneSym: unexpected byte representation"))
+	}
+	in := func(t *smt.Term, lo, hi uint64) *smt.Term {
+		return c.And(c.BVCmp(smt.OpULe, c.BVC(lo, 8), t), c.BVCmp(smt.OpULe, t, c.BVC(hi, 8)))
+	}
+	low := func(t *smt.Term, mask uint64) *smt.Term { return c.ZExt(c.BVBin(smt.OpBAnd, t, c.BVC(mask, 8)), 32) }
+	shl := func(t *smt.Term, n uint64) *smt.Term { return c.BVBin(smt.OpShl, t, c.BVC(n, 32)) }
+	or := func(a, b *smt.Term) *smt.Term { return c.BVBin(smt.OpBOr, a, b) }
+	fr := i.curFrame
+	b0 := bt(0)
+	if i.branch(c.BVCmp(smt.OpULt, b0, c.BVC(0x80, 8)), fr) {
+		return lowerRune(c.ZExt(b0, 32)), 1
+	}
+	n := len(bs)
+	if n >= 2 {
+		b1 := bt(1)
+		if i.branch(c.And(in(b0, 0xC2, 0xDF), in(b1, 0x80, 0xBF)), fr) {
+			return lowerRune(or(shl(low(b0, 0x1F), 6), low(b1, 0x3F))), 2
+		}
+		if n >= 3 {
+			b2 := bt(2)
+			second := c.OrN(
+				c.And(c.Eq(b0, c.BVC(0xE0, 8)), in(b1, 0xA0, 0xBF)),
+				c.And(in(b0, 0xE1, 0xEC), in(b1, 0x80, 0xBF)),
+				c.And(c.Eq(b0, c.BVC(0xED, 8)), in(b1, 0x80, 0x9F)),
+				c.And(in(b0, 0xEE, 0xEF), in(b1, 0x80, 0xBF)))
+			if i.branch(c.And(second, in(b2, 0x80, 0xBF)), fr) {
+				return lowerRune(or(or(shl(low(b0, 0x0F), 12), shl(low(b1, 0x3F), 6)), low(b2, 0x3F))), 3
+			}
+			if n >= 4 {
+				b3 := bt(3)
+				second4 := c.OrN(
+					c.And(c.Eq(b0, c.BVC(0xF0, 8)), in(b1, 0x90, 0xBF)),
+					c.And(in(b0, 0xF1, 0xF3), in(b1, 0x80, 0xBF)),
+					c.And(c.Eq(b0, c.BVC(0xF4, 8)), in(b1, 0x80, 0x8F)))
+				if i.branch(c.AndN(second4, in(b2, 0x80, 0xBF), in(b3, 0x80, 0xBF)), fr) {
+					return lowerRune(or(or(or(shl(low(b0, 0x07), 18), shl(low(b1, 0x3F), 12)), shl(low(b2, 0x3F), 6)), low(b3, 0x3F))), 4
+				}
+			}
+		}
+	}
+	return int32(utf8.RuneError), 1
+}
+
+func lowerRune(t *smt.Term) value {
+	if t.IsConst() {
+		return int32(t.C)
+	}
+	return t
 }
 
 func decodeRune(s string) (rune, int) {
